@@ -177,42 +177,71 @@ Proof.
   cbn [andb]. now rewrite !andb_false_r.
 Qed.
 
-Definition has_sq (s : str) : bool := existsb (fun c => c =? c_sq) s.
 Definition has_nl (s : str) : bool := existsb (fun c => c =? c_nl) s.
+
+Lemma nl_wrap : forall q v, (q =? c_nl) = false -> has_nl v = false ->
+  existsb (fun x : char => x =? c_nl) (q :: v ++ [q]) = false.
+Proof.
+  intros q v Hq Hl. change (has_nl (q :: v ++ [q]) = false). unfold has_nl in *.
+  cbn [existsb]. rewrite existsb_app.
+  assert (X : forall b : bool, b = false -> (q =? c_nl) || (b || existsb (fun c : N => c =? c_nl) [q]) = false)
+    by (intros b ->; cbn; rewrite Hq; reflexivity).
+  apply X. exact Hl.
+Qed.
+
+(** the failing class that remains: a single quote together with a character special inside double quotes *)
+Definition Known_C17 (v : str) : bool := has_sq v && has_special v.
 
 Section Listing.
   Variable unquote : str -> str.
-  (** what the real unquote does on the two shapes that occur (checked against the
+  (** what the real unquote does on the shapes that occur (checked against the
       implementation by the correspondence layers, not proved about the tokenizer) *)
   Hypothesis unquote_name : forall n, is_name n = true -> unquote n = n.
   Hypothesis unquote_sq : forall v, has_sq v = false -> unquote (c_sq :: v ++ [c_sq]) = v.
+  Hypothesis unquote_dq : forall v, has_special v = false -> unquote (c_dq :: v ++ [c_dq]) = v.
 
-  (** the argument of the builtin when a listing line is fed back *)
-  Definition listed_arg (n v : str) : str := n ++ [c_eq; c_sq] ++ v ++ [c_sq].
+  (** How the tokenizer may deliver the argument of a listing line: with the quotes
+      kept and no tag, or with the quotes removed and the tag of the quote. *)
+  Inductive delivered (n v : str) : token -> Prop :=
+  | DKept : delivered n v (TNone, n ++ c_eq :: (if list_dq v then c_dq else c_sq) :: v ++ [if list_dq v then c_dq else c_sq])
+  | DStripped : delivered n v (if list_dq v then TDq else TSq, n ++ c_eq :: v).
 
-  Lemma relist_one : forall t n v, is_name n = true -> has_sq v = false -> has_nl v = false ->
-    alias_builtin unquote t [listed_arg n v] = (add_alias t n v, OutNone).
+  Lemma relist_one : forall t n v tk, is_name n = true -> Known_C17 v = false -> has_nl v = false ->
+    delivered n v tk -> alias_builtin unquote t [tk] = (add_alias t n v, OutNone).
   Proof.
-    intros t n v Hn Hs Hl. unfold alias_builtin, listed_arg. cbn [app].
-    rewrite is_name_def_false.
-    unfold is_name in Hn. apply andb_true_iff in Hn as [Hne Hn]. apply negb_true_iff in Hne.
-    rewrite (split_def_name n [] (c_sq :: v ++ [c_sq])); [| exact Hn | exact Hne |].
-    - cbn [app starts_with_quote]. rewrite N.eqb_refl, orb_true_r.
-      rewrite (unquote_name n); [|unfold is_name; now rewrite Hne, Hn].
-      rewrite (unquote_sq v Hs). reflexivity.
-    - change (has_nl (c_sq :: v ++ [c_sq]) = false). unfold has_nl in *.
-      cbn [existsb]. rewrite existsb_app.
-      assert (X : forall b : bool, b = false -> (c_sq =? c_nl) || (b || existsb (fun c : N => c =? c_nl) [c_sq]) = false)
-        by (intros b ->; reflexivity).
-      apply X. exact Hl.
+    intros t n v tk Hn Hk Hl D.
+    pose proof Hn as Hn'. unfold is_name in Hn'. apply andb_true_iff in Hn' as [Hne Hnc]. apply negb_true_iff in Hne.
+    destruct D.
+    - (* quotes kept *)
+      unfold alias_builtin. rewrite is_name_def_false.
+      destruct (list_dq v) eqn:Ld.
+      + rewrite (split_def_name n [] (c_dq :: v ++ [c_dq])); [| exact Hnc | exact Hne | now apply nl_wrap].
+        cbn [app tag_eqb andb starts_with_quote]. rewrite N.eqb_refl. cbn [orb].
+        rewrite (unquote_name n Hn). unfold list_dq in Ld. apply andb_true_iff in Ld as [_ Ld].
+        apply negb_true_iff in Ld. rewrite (unquote_dq v Ld). reflexivity.
+      + rewrite (split_def_name n [] (c_sq :: v ++ [c_sq])); [| exact Hnc | exact Hne | now apply nl_wrap].
+        cbn [app tag_eqb andb starts_with_quote]. rewrite N.eqb_refl, orb_true_r.
+        rewrite (unquote_name n Hn).
+        assert (Hs : has_sq v = false).
+        { unfold Known_C17 in Hk. unfold list_dq in Ld. destruct (has_sq v); [|reflexivity].
+          cbn in Hk, Ld. rewrite Hk in Ld. discriminate. }
+        rewrite (unquote_sq v Hs). reflexivity.
+    - (* quotes removed by the tokenizer: verbatim *)
+      unfold alias_builtin. rewrite is_name_def_false.
+      rewrite (split_def_name n [] v); [| exact Hnc | exact Hne | exact Hl].
+      cbn [app]. rewrite (unquote_name n Hn).
+      destruct (list_dq v); reflexivity.
   Qed.
 
-  (** feeding a whole listing back, starting from any table: every listed name gets its value *)
+  (** feeding a whole listing back, starting from any table, with any admissible delivery *)
+  Variable deliver : str -> str -> token.
+  Hypothesis deliver_ok : forall n v, delivered n v (deliver n v).
+
   Definition relist (t0 : table) (l : table) : table :=
-    fold_left (fun acc kv => fst (alias_builtin unquote acc [listed_arg (fst kv) (snd kv)])) l t0.
+    fold_left (fun acc kv => fst (alias_builtin unquote acc [deliver (fst kv) (snd kv)])) l t0.
 
   Definition listable (t : table) : Prop :=
-    forall k v, In (k, v) t -> is_name k = true /\ has_sq v = false /\ has_nl v = false.
+    forall k v, In (k, v) t -> is_name k = true /\ Known_C17 v = false /\ has_nl v = false.
 
   Lemma relist_is_adds : forall l t0, listable l ->
     relist t0 l = fold_left (fun acc kv => add_alias acc (fst kv) (snd kv)) l t0.
@@ -220,7 +249,7 @@ Section Listing.
     induction l as [|[k v] l IH]; intros t0 H; [reflexivity|].
     unfold relist. cbn [fold_left fst snd].
     destruct (H k v (or_introl eq_refl)) as (H1 & H2 & H3).
-    rewrite (relist_one t0 k v H1 H2 H3). cbn [fst]. apply IH.
+    rewrite (relist_one t0 k v _ H1 H2 H3 (deliver_ok k v)). cbn [fst]. apply IH.
     intros k' v' Hin. apply H. now right.
   Qed.
 
@@ -248,24 +277,47 @@ Section Listing.
   Qed.
 End Listing.
 
-(** Why a value holding a quote cannot be listed: reading the single-quoted word
-    of the listing line stops at the first quote of the value. *)
-Lemma sq_read_no_sq : forall s v rest, sq_read s = Some (v, rest) -> has_sq v = false.
+(** Reading a quoted word (no escape inside; the double-quoted form is only used for
+    values without characters special inside double quotes). *)
+Definition has_q (q : char) (s : str) : bool := existsb (fun c => c =? q) s.
+
+Lemma q_read_no_q : forall q s v rest, q_read q s = Some (v, rest) -> has_q q v = false.
 Proof.
   induction s as [|c s IH]; intros v rest H; [discriminate|]. cbn in H.
-  destruct (c =? c_sq) eqn:E.
+  destruct (c =? q) eqn:E.
   - injection H as <- <-. reflexivity.
-  - destruct (sq_read s) as [[v' r']|] eqn:L; [|discriminate]. injection H as <- <-.
-    unfold has_sq. cbn [existsb]. rewrite E. exact (IH _ _ eq_refl).
+  - destruct (q_read q s) as [[v' r']|] eqn:L; [|discriminate]. injection H as <- <-.
+    unfold has_q. cbn [existsb]. rewrite E. exact (IH _ _ eq_refl).
 Qed.
 
-Lemma sq_read_plain : forall v rest, has_sq v = false -> sq_read (v ++ c_sq :: rest) = Some (v, rest).
+Lemma q_read_plain : forall q v rest, has_q q v = false -> q_read q (v ++ q :: rest) = Some (v, rest).
 Proof.
   induction v as [|c v IH]; intros rest H.
-  - cbn. reflexivity.
-  - unfold has_sq in H. cbn [existsb] in H. apply orb_false_iff in H as [Hc Hv].
-    cbn [app sq_read]. rewrite Hc. fold (has_sq v) in Hv. now rewrite (IH rest Hv).
+  - cbn. now rewrite N.eqb_refl.
+  - unfold has_q in H. cbn [existsb] in H. apply orb_false_iff in H as [Hc Hv].
+    cbn [app q_read]. rewrite Hc. fold (has_q q v) in Hv. now rewrite (IH rest Hv).
 Qed.
 
 Lemma sq_read_iff : forall v rest, sq_read (v ++ c_sq :: rest) = Some (v, rest) <-> has_sq v = false.
-Proof. intros. split; [apply sq_read_no_sq|apply sq_read_plain]. Qed.
+Proof. intros. split; [apply (q_read_no_q c_sq)|apply (q_read_plain c_sq)]. Qed.
+
+(** reading back the quoted word of the listing line of v *)
+Definition read_listed (v : str) : option (str * str) :=
+  if list_dq v then q_read c_dq (v ++ [c_dq]) else q_read c_sq (v ++ [c_sq]).
+
+Lemma special_has_dq : forall v, has_special v = false -> has_q c_dq v = false.
+Proof.
+  induction v as [|c v IH]; intro H; [reflexivity|]. unfold has_special in H. cbn [existsb] in H.
+  apply orb_false_iff in H as [Hc Hv]. unfold is_dq_special in Hc.
+  apply orb_false_iff in Hc as [Hc _]. apply orb_false_iff in Hc as [Hc _]. apply orb_false_iff in Hc as [Hc _].
+  unfold has_q. cbn [existsb]. rewrite Hc. exact (IH Hv).
+Qed.
+
+Lemma read_listed_iff : forall v, read_listed v = Some (v, []) <-> Known_C17 v = false.
+Proof.
+  intro v. unfold read_listed, Known_C17, list_dq. destruct (has_sq v) eqn:Hs; cbn [andb].
+  - destruct (has_special v) eqn:Hp; cbn [negb].
+    + split; [|discriminate]. intro H. apply (q_read_no_q c_sq) in H. unfold has_sq in Hs. unfold has_q in H. congruence.
+    + split; [reflexivity|]. intros _. apply q_read_plain. now apply special_has_dq.
+  - split; [reflexivity|]. intros _. now apply (q_read_plain c_sq).
+Qed.
